@@ -100,6 +100,8 @@ func execAlgCase(c algCase, _ core.Source) core.Result {
 		return execAlg(c, seAny)
 	case "any-hard":
 		return execAlg(c, seAnyHard)
+	case "record":
+		return execAlg(c, seRecord)
 	default:
 		return execAlg(c, seSet)
 	}
@@ -407,7 +409,7 @@ var algOps = []string{"And", "Or", "Sans", "Xor"}
 
 func genAlgExhaustive(universe int) func(core.Source) algCase {
 	return func(s core.Source) algCase {
-		c := algCase{Elem: core.Pick(s, []string{"int", "string", "float", "any-hard"}, "elem"), Collator: "default"}
+		c := algCase{Elem: core.Pick(s, []string{"int", "string", "float", "any-hard", "record"}, "elem"), Collator: "default"}
 		c.Op = core.Pick(s, algOps, "op")
 		ma := s.Choose(1<<universe, "A")
 		mb := s.Choose((1<<universe)+1, "B") // the extra value = alias (A, A)
@@ -425,7 +427,7 @@ func genAlgExhaustive(universe int) func(core.Source) algCase {
 }
 
 func genAlgRandom(s core.Source) algCase {
-	c := algCase{Elem: core.Pick(s, []string{"int", "string", "float", "ints", "any", "any-hard", "set"}, "elem")}
+	c := algCase{Elem: core.Pick(s, []string{"int", "string", "float", "ints", "any", "any-hard", "set", "record"}, "elem")}
 	c.Collator = core.Pick(s, []string{"default", "reversed", "coarse"}, "collator")
 	if (c.Elem == "any" || c.Elem == "any-hard" || c.Elem == "set") && c.Collator == "coarse" {
 		c.Collator = "reversed"
